@@ -134,6 +134,10 @@ func (f *AdjustArray) Call(s *slip.Scope, args slip.List, depth int) (result sli
 			}
 		}
 	}
+	if _, ok := args[0].(slip.VectorLike); ok && 0 < len(dims) && dims[0] < fillPtr {
+		slip.ErrorPanic(s, depth, "The fill-pointer %d is beyond the new size %d of the vector.", fillPtr, dims[0])
+	}
+
 	switch ta := args[0].(type) {
 	case *slip.Array:
 		result = ta.Adjust(dims, elementType, initElement, initContents)
